@@ -700,4 +700,23 @@ example : computeHedge (fun x => [sumL x])
     Feature.getAt, BaseFeature.getAt, idx, bind_ok, pure_eq, logIf, appendLast, lastL, sumL]
   norm_num
 
+/-- **The all-at-once branch never needs the model's value at maturity.**  Since the `fix:` commit
+b852b59 the code evaluates the model on the first `T − 1` rows only and repeats the last position
+(`output = self(input[..., :-1, :]); cat(output, output[..., [-1], :])`), while the model keeps the
+earlier form `dupLast (x.map g)` (evaluate every row, overwrite the last one).  For every row-wise
+model `g` the two are the same function — errors included (fewer than two time steps). -/
+theorem batched_skips_maturity {β γ : Type} (g : β → γ) (x : List β) :
+    dupLast (x.map g) = appendLast (x.dropLast.map g) := by
+  rw [PfVerif.C03Aux.dupLast_eq, List.dropLast_eq_take, List.dropLast_eq_take, List.map_take, List.length_map]
+
+/-- hence `computeHedge` with state-independent inputs is the hedge the repaired code computes -/
+theorem computeHedge_batched_eq (g : List ℝ → List ℝ) (fs : List (Feature ℝ)) (m : Market ℝ) (n h : ℕ)
+    (hfs : fs.any Feature.stateDependent = false) :
+    computeHedge g fs m n h = (inputsAll n fs m).bind (fun x => appendLast (x.dropLast.map g)) := by
+  unfold computeHedge
+  simp only [hfs]
+  cases inputsAll n fs m with
+  | error e => rfl
+  | ok x => simp only [bind, Except.bind]; exact batched_skips_maturity g x
+
 end PfVerif.C03
